@@ -39,7 +39,7 @@ from typing import Any, Callable, Dict, List, Optional, Sequence, Tuple
 
 from checks.c03 import K
 from sa.blockeval import BlockEval, Unknown, _Stop
-from sa.consteval import _BUILTINS, _MODULE_FUNCS, Folder, NotConst
+from sa.consteval import _BUILTINS, _MODULE_FUNCS, Folder, NotConst, _bind
 
 M = "transformer"
 MAGIC = "#stub-mmcif "
@@ -841,10 +841,23 @@ def _real_builtin(name: str) -> Callable:
             return next(it, *default)
 
         return nxt
-    return lambda *a, **k: _bounded(real(*a, **k))
+    if name == "range":
+        return lambda *a, **k: _bounded(real(*a, **k))
+    return lambda *a, **k: _lazy_bounded(real(*a, **k))  # zip / map / filter / enumerate / reversed are lazy in the language: never consumed = never run
 
 
 _BOUND = 100000
+
+
+def _lazy_bounded(it):
+    """The lazy object itself (elements are produced while it is consumed), cut at a bound so that an evaluation always ends."""
+    try:
+        for k, x in enumerate(it):
+            if k > _BOUND:
+                raise Unknown("unbounded iteration")
+            yield x
+    except NotConst as ex:
+        raise Unknown(f"lazy iteration: {ex}")
 
 
 def _bounded(it) -> list:
@@ -880,6 +893,34 @@ class XFolder(Folder):
         if type(v) is frozenset:
             return HFrozenSet(v)
         return v
+
+    def _f_GeneratorExp(self, n):
+        """A generator expression is lazy: only its first iterable is evaluated where it is written; elements, conditions and
+        inner iterables are evaluated while it is consumed (and see the names as they are bound then); never consumed = never run."""
+        gens = n.generators
+        first = iter(self.fold(gens[0].iter))
+
+        def rec(i, env, src=None):
+            if i == len(gens):
+                yield self.child(env).fold(n.elt)
+                return
+            g = gens[i]
+            for item in src if src is not None else iter(self.child(env).fold(g.iter)):
+                env2 = dict(env)
+                _bind(g.target, item, env2)
+                s2 = self.child(env2)
+                if all(s2.fold(c) for c in g.ifs):
+                    for k in getattr(s2, "_walrus", ()):
+                        env2[k] = s2.local[k]
+                    yield from rec(i + 1, env2)
+
+        def run():
+            try:
+                yield from rec(0, {}, first)
+            except NotConst as ex:
+                raise Unknown(f"`{norm_(n)}`: {ex}")
+
+        return run()
 
     def _f_Name(self, n):
         if n.id not in self.local and n.id in _XB and _XB[n.id] is not None:
@@ -1938,6 +1979,8 @@ def _judge_replace(o: Outcome, want_doc, want_map, cat, col, text: Optional[str]
         return f"the first component {_short(o.value[0])} is not the serialised document"
     d = doc_diff(got, want_doc, cat, None, col)
     if d is not None:
+        if o.value[1] == want_map and _find(got, cat) and _find(want_doc, cat) and _find(got, cat)[1] == _find(want_doc, cat)[1]:
+            d += f" - the returned mapping {_short(want_map)} is the first-seen mapping, but the item is not its image: a cell was substituted more than once (substitutions applied one after the other on the live column instead of at once per cell) or not at all"
         return d + _row_hint(o, got, want_doc, cat)
     if o.value[1] != want_map:
         return f"the returned mapping is {o.value[1]!r}, the substitution that was applied is {want_map!r}"
